@@ -1094,6 +1094,49 @@ func ruleHooks(c *chk.Ctx) {
 							for _, ss := range slotSends(c) {
 								if ss.owner == "client" && c.P.IDominates(ss.send, mc) {
 									installed = true
+									// the converse: once this goroutine has ended the request, whether the
+									// hook closure is made depends on the hook being set, not on any other
+									// state of the client (a stopped client's requests get their hook too)
+									have := map[ssa.Value]bool{}
+									gate := ""
+									for _, sc := range ir.CondsAt(ss.send.Block()) {
+										have[sc.V] = true
+									}
+									for _, cd := range ir.CondsAt(mc.Block()) {
+										if have[cd.V] {
+											continue
+										}
+										x, _, isNil := ir.NilCompare(cd.V)
+										if !isNil {
+											continue
+										}
+										ld, ok := x.(*ssa.UnOp)
+										if !ok {
+											continue
+										}
+										fa, ok := ld.X.(*ssa.FieldAddr)
+										if !ok {
+											continue
+										}
+										pt, ok := fa.X.Type().Underlying().(*types.Pointer)
+										if !ok {
+											continue
+										}
+										st, ok := pt.Elem().Underlying().(*types.Struct)
+										if !ok {
+											continue
+										}
+										owns := false
+										for k := 0; k < st.NumFields(); k++ {
+											if st.Field(k) == c.M.CChook {
+												owns = true
+											}
+										}
+										if owns && st.Field(fa.Field) != c.M.CChook {
+											gate = st.Field(fa.Field).Name()
+										}
+									}
+									c.Check(gate == "", "HOOK.cancel", par, "OnCancel for every request this goroutine ended", mc.Pos(), "between the slot write and the hook closure no nil test of another client field", "after the slot write the cancel hook is installed only if the client's field "+gate+" passes a nil test: a request ended by this goroutine on a client in the other state gets no OnCancel call")
 								}
 							}
 						})
